@@ -30,3 +30,15 @@ func H_LeveragedLp_ClosePositions_Liquidate() { h_c08.H_ClosePositions_Liquidate
 //vrf:assert-prefix C10
 //vrf:max-paths 6000
 func H_LeveragedLp_Sweep_StopLossGate() { h_c08.H_BeginBlocker_TwoPositions_StopLossGate() }
+
+//vrf:cover open-ok
+//vrf:bound see h_c08.H_Open_New
+//vrf:assert-prefix C10
+//vrf:max-paths 3000
+func H_LeveragedLp_Open_Healthy() { h_c08.H_Open_New() }
+
+//vrf:cover open-ok top-up
+//vrf:bound see h_c08.H_Open_Consolidate (leverage 1 = collateral top-up included)
+//vrf:assert-prefix C10
+//vrf:max-paths 3000
+func H_LeveragedLp_OpenConsolidate_Healthy() { h_c08.H_Open_Consolidate() }
